@@ -62,38 +62,70 @@ def generate(chk, tier):
     return seqs
 
 
+def run_driver(bindir, path, start, watchdog_s):
+    env = dict(os.environ, X01_WATCHDOG_S=str(int(watchdog_s)))
+    try:
+        p = subprocess.run([os.path.join(bindir, "epollops"), path, str(start)], stdout=subprocess.PIPE, stderr=subprocess.PIPE,
+                           text=True, timeout=3600, env=env)
+    except subprocess.TimeoutExpired:
+        raise core.ToolError("epollops driver exceeded 3600 s")
+    got = []
+    for line in p.stdout.splitlines():
+        try:
+            got.append(json.loads(line))
+        except ValueError:
+            pass
+    return p, got
+
+
 def execute(chk, bindir, plan, tag):
+    """The only wall-clock based observation of X01 is the driver's watchdog ("an operation did not
+    return"): its limit is stretched by the load factor, and a trip becomes a `hang` record (and so a
+    verdict) only if it is reproduced in 2 of 2 re-runs of that sequence ALONE with a >= 5x limit."""
+    from checks import sysinj_common as SJ
     path = os.path.join(chk.work, "plan_%s.ndjson" % tag)
     core.write_ndjson(path, plan)
+    by = {p["seq"]: p for p in plan}
     events = []
     start = 0
     runs = 0
+    trips = []
     last_seq = plan[-1]["seq"]
     while start <= last_seq:
         runs += 1
-        try:
-            p = subprocess.run([os.path.join(bindir, "epollops"), path, str(start)], stdout=subprocess.PIPE, stderr=subprocess.PIPE,
-                               text=True, timeout=900)
-        except subprocess.TimeoutExpired:
-            raise core.ToolError("epollops driver exceeded 900 s")
-        got = []
-        for line in p.stdout.splitlines():
-            try:
-                got.append(json.loads(line))
-            except ValueError:
-                pass
-        events += got
+        base = 5 * SJ.load_factor()
+        p, got = run_driver(bindir, path, start, base)
         if p.returncode == 0:
+            events += got
             break
         if not got:
             raise core.ToolError("epollops died without output (rc=%s): %s" % (p.returncode, p.stderr[-1500:]))
         lastev = got[-1]
-        if p.returncode != 3:
+        seq = lastev["seq"]
+        if p.returncode == 3:
+            # watchdog trip in sequence `seq`: re-confirm alone
+            single = os.path.join(chk.work, "plan_%s_reconfirm.ndjson" % tag)
+            core.write_ndjson(single, [by[seq]])
+            reproduced = 0
+            clean = None
+            for _ in range(2):
+                p2, got2 = run_driver(bindir, single, seq, max(25, 5 * base) * SJ.load_factor())
+                if p2.returncode == 3:
+                    reproduced += 1
+                elif p2.returncode == 0:
+                    clean = got2
+                    break
+            if reproduced < 2 and clean is not None:
+                trips.append({"seq": seq, "op": lastev.get("i"), "limit_s": round(base, 1)})
+                got = [e for e in got if e["seq"] != seq] + clean
+        else:
             # the driver crashed inside an operation: the next operation of that sequence never returned
-            events.append({"seq": lastev["seq"], "i": lastev["i"] + 1, "crash": True, "stderr": p.stderr[-300:]})
-        start = lastev["seq"] + 1
+            got.append({"seq": seq, "i": lastev["i"] + 1, "crash": True, "stderr": p.stderr[-300:]})
+        events += got
+        start = seq + 1
         if runs > 500:
             raise core.ToolError("too many driver restarts")
+    chk.extra["wall_clock_trips_not_reproduced"] = trips
     return events, runs
 
 
